@@ -27,7 +27,7 @@ PROPS["C13"] = dict(
           "choices (nbin 1..100), beads inside, +-1,2,50,100 periods away, exactly at -mL / +mL, on bin centres and edges; oracle in exact rational "
           "arithmetic: density_i*area*step*frames/scale == weight of the beads of bin i (mass or number), sum == total weight, clean sanitizer run; "
           "non-trivial = >=1 bead outside the box with a decided bin."
-          " legacy also covers histories: in 30 % of the cases the same Histogram object has processed another data set before. Histories: HistogramNew objects initialised before in the other periodic mode or with another range and re-initialised; unit weights alternatively through ProcessRange; legacy Histogram objects reused for a second ProcessData."),
+          " legacy also covers histories: in 30 % of the cases the same Histogram object has processed another data set before. Histories: HistogramNew objects initialised before in the other periodic mode or with another range and re-initialised; unit weights alternatively through ProcessRange; legacy Histogram objects reused for a second ProcessData. Weights may carry a common power-of-two unit factor 2^-20..2^-200 (tiny absolute totals); cases that normalise use non-negative weights; the legacy normalisation integral is checked for every scaling / periodic flavour with non-negative finite bins."),
     assumptions=COMMON_ASSUME + [
         "HistogramNew with nbins=1 uses step=1 (implementation convention, the statement is silent); periodic nbins=1 maps everything to bin 0",
         "values whose rounding band exceeds half a bin (|q| > 2.5e14) are only checked for weight conservation and memory safety",
